@@ -12,7 +12,7 @@ fn n_programs(o: &Opts, quick: usize, thorough: usize) -> usize {
 pub fn plan(o: &Opts) -> Vec<GroupSpec> {
    match o.prop.as_str() {
       "C01" => plan_c01(o),
-      "C04" => plan_simple(o, "C04", 120, 1500, |r| { let l = vcore::rng::Src::chance(r, 30); gen::gen_strat(r, &GenCfg::core(), l) }),
+      "C04" => plan_simple(o, "C04", 120, 1500, |r| { let l = vcore::rng::Src::chance(r, 30) || std::env::var("VERIF_C04_FORCE_LAT").is_ok(); gen::gen_strat(r, &GenCfg::core(), l) }),
       "C02" => plan_par(o, "C02", 72, 720, true, |r| gen::gen_any(r, &GenCfg::core())),
       "C05" => plan_par(o, "C05", 96, 960, false, |r| gen::gen_rederive(r, &GenCfg::core())),
       "C06" => plan_c06(o),
@@ -52,9 +52,12 @@ fn plan_simple(o: &Opts, prop: &str, quick: usize, thorough: usize, f: impl Fn(&
          let mut r = rng_for(prop, o.seed, i as u64);
          let prog = f(&mut r);
          let base = format!("{prop}-s{}-{}", o.seed, i);
-         GroupSpec {
-            members: vec![MemberSpec { prog, opts: PrintOpts::plain(Kind::Ascent), meta: meta(&base, "ser", Kind::Ascent, true) }],
+         let mut members = vec![MemberSpec { prog: prog.clone(), opts: PrintOpts::plain(Kind::Ascent), meta: meta(&base, "ser", Kind::Ascent, true) }];
+         // C04: every second program also in its parallel form (aggregates and negation read other index types there)
+         if prop == "C04" && i % 2 == 1 && gen::par_rejects(&prog).is_none() {
+            members.push(MemberSpec { prog, opts: PrintOpts::plain(Kind::AscentPar), meta: meta(&base, "par", Kind::AscentPar, false) });
          }
+         GroupSpec { members }
       })
       .collect()
 }
